@@ -5,7 +5,7 @@ def corrupt_unlock(src, dst, seed):
     """Binding self-test: pretend one locked write happened without the lock."""
     import random
     lines = open(src).read().splitlines()
-    idx = [i for i, l in enumerate(lines) if '"rw":"wr"' in l and '"locked":true' in l]
+    idx = [i for i, l in enumerate(lines) if '"rw":"wr"' in l and '"lk":"x"' in l]
     if not idx:
         # no locked write recorded: claim that a read was an unlocked write by another goroutine
         idx = [i for i, l in enumerate(lines) if '"rw":"rd"' in l]
@@ -16,7 +16,7 @@ def corrupt_unlock(src, dst, seed):
     else:
         i = random.Random(seed).choice(idx)
         # the same cell must have another goroutine's access for the corruption to matter: duplicate as foreign unlocked write
-        lines.insert(i + 1, lines[i].replace('"locked":true', '"locked":false').replace('"g":1', '"g":9').replace('"g":2', '"g":9').replace('"g":3', '"g":9'))
+        lines.insert(i + 1, lines[i].replace('"lk":"x"', '"lk":"n"').replace('"g":1', '"g":9').replace('"g":2', '"g":9').replace('"g":3', '"g":9'))
     open(dst, "w").write("\n".join(lines) + "\n")
     return "inserted a foreign unlocked write after line %d" % (i + 1)
 
@@ -37,6 +37,10 @@ def stages(tier, seed):
     return [
         tlc_check("Spec_Lazy_safe", "MC_Lazy", dict(constants=dict(LZ, Protocol="<- ProtoSafe"),
                                                    invariants=["NoRace", "AtMostOneBuilder"], properties=["NoDeadlock"])),
+        tlc_check("Spec_Lazy_lru", "MC_Lazy", dict(constants=dict(LZ, Protocol="<- ProtoLRU"),
+                                                  invariants=["NoRace", "AtMostOneBuilder"], properties=["NoDeadlock"])),
+        tlc_check("Spec_Lazy_rwlru", "MC_Lazy", dict(constants=dict(LZ, Protocol="<- ProtoRWLRU"), invariants=["NoRace"]),
+                  expect_violation="NoRace"),
         tlc_check("Spec_Lazy_racy", "MC_Lazy", dict(constants=dict(LZ, Protocol="<- ProtoRacy"), invariants=["NoRace"]),
                   expect_violation="NoRace"),
         fam,
